@@ -22,7 +22,7 @@ def gen_abstract(rng):
     if rng.random() < 0.7 and commit != "true":
         tag = rng.choice(["absent", "false"]); push = rng.choice(["absent", "false"])       # mostly valid configurations
     n_entries = rng.choice([0, 1, 1, 2, 3, 6])
-    names = ["README.md", "src/pkg/__init__.py", "src/pkg/about.py", "docs/conf.py", "CHANGES.txt", "a b.txt"]
+    names = ["README.md", "src/pkg/__init__.py", "src/pkg/about.py", "docs/conf.py", "CHANGES.txt", "a b.txt", "VERSION", "Makefile"]      # file names are case-sensitive option names in INI syntax
     entries = []
     used = rng.sample(names, min(n_entries, len(names)))
     for nme in used:
@@ -121,7 +121,7 @@ def load_case(job):
         proj = project.Project(os.path.join(d, "p"), vcs=None)
         text, cvline = write_config(A, fname, section, syntax, rng)
         proj.write(fname, text)
-        for nme in ["README.md", "src/pkg/__init__.py", "src/pkg/about.py", "docs/conf.py", "CHANGES.txt", "a b.txt", "hooks/pre.sh", "hooks/post.sh"]:
+        for nme in ["README.md", "src/pkg/__init__.py", "src/pkg/about.py", "docs/conf.py", "CHANGES.txt", "a b.txt", "VERSION", "Makefile", "hooks/pre.sh", "hooks/post.sh"]:
             proj.write(nme, "x\n")
         cwd = os.getcwd()
         os.chdir(proj.root)
